@@ -79,6 +79,7 @@ type Obligation struct {
 	Uses   []Term
 	Bounded int
 	// filled by the solver driver
+	Confirmed int // number of solver runs that answered unsat
 	Result   string
 	Solver   string
 	TimeMS   int64
